@@ -693,6 +693,7 @@ func (g *Gtp5g) CreateFAR(lSeid uint64, req *ie.IE) error {
 func (g *Gtp5g) UpdateFAR(lSeid uint64, req *ie.IE) error {
 	var farid uint64
 	var attrs []nl.Attr
+	var acts []report.ApplyAction
 
 	ies, err := req.UpdateFAR()
 	if err != nil {
@@ -720,7 +721,7 @@ func (g *Gtp5g) UpdateFAR(lSeid uint64, req *ie.IE) error {
 				Type:  gtp5gnl.FAR_APPLY_ACTION,
 				Value: nl.AttrU16(act.Flags),
 			})
-			g.applyAction(lSeid, int(farid), act)
+			acts = append(acts, act)
 		case ie.UpdateForwardingParameters:
 			xs, err := i.UpdateForwardingParameters()
 			if err != nil {
@@ -746,6 +747,12 @@ func (g *Gtp5g) UpdateFAR(lSeid uint64, req *ie.IE) error {
 				Value: nl.AttrU8(v),
 			})
 		}
+	}
+
+	// the FAR ID IE may follow the Apply Action IE: release or drop the
+	// buffered packets only once the whole grouped IE has been read
+	for _, act := range acts {
+		g.applyAction(lSeid, int(farid), act)
 	}
 
 	oid := gtp5gnl.OID{lSeid, farid}
